@@ -144,8 +144,8 @@ PROPS = {
         "trusted": ["pep440_rs parses the literal; only its release segments reach the model"], "assumptions": [],
     },
     "C01": {
-        "lean_targets": ["Pep508.Theorems.C01", "Pep508.Theorems.C10"],
-        "theorems": ["Pep508.C01.expr_version", "Pep508.C01.expr_version_in", "Pep508.C01.expr_string", "Pep508.C01.expr_in", "Pep508.C01.expr_not_in",
+        "lean_targets": ["Pep508.Theorems.C01b", "Pep508.Theorems.C01", "Pep508.Theorems.C10"],
+        "theorems": ["Pep508.C01.layout_parses", "Pep508.C01.layout_parses_cursor", "Pep508.C01.layout_then_junk", "Pep508.C01.layout_parses_sub", "Pep508.C01.more_fuel_same", "Pep508.C01.layout_independent", "Pep508.C01.paren_transparent", "Pep508.C01.atom_key_op_string", "Pep508.C01.atom_string_op_key", "Pep508.C01.kwStop_iff", "Pep508.C01.quote_then_keyword", "Pep508.C01.keyword_glued_right", "Pep508.C01.keyword_glued_left", "Pep508.C01.expr_version", "Pep508.C01.expr_version_in", "Pep508.C01.expr_string", "Pep508.C01.expr_in", "Pep508.C01.expr_not_in",
                      "Pep508.C01.expr_contains", "Pep508.C01.expr_not_contains", "Pep508.C01.expr_extra", "Pep508.C01.expr_wf", "Pep508.C01.skeleton",
                      "Pep508.C01.parse_total", "Pep508.C01.inverted_string", "Pep508.C10.python_version_sem"],
         "suites": [{"name": "pyver", "args": ["C01"]}, {"name": "mparse", "args": ["C01"]}],
@@ -159,12 +159,12 @@ PROPS = {
         "assumptions": ["environments are final releases with python_version = major.minor of python_full_version (the property's quantifier)"],
     },
     "C06": {
-        "lean_targets": ["Pep508.Theorems.C06"],
+        "lean_targets": ["Pep508.Theorems.C06", "Pep508.Theorems.C19b"],
         "theorems": ["Pep508.C06.marker_tree_never_panics", "Pep508.C06.marker_tree_err_span", "Pep508.C06.marker_tree_err_sliceable",
                      "Pep508.C06.marker_expression_never_panics", "Pep508.C06.marker_expression_err_span", "Pep508.C06.take_while_sliceable",
                      "Pep508.parseMarkers_total", "Pep508.descentOK", "Pep508.Cursor.takeWhile_slice",
                      "Pep508.C06.requirement_never_panics", "Pep508.C06.requirement_err_span", "Pep508.C06.requirement_external_calls",
-                     "Pep508.C06.requirement_url_ends_span", "Pep508.C06.requirement_url_ends_ok_span", "Pep508.C06.display_never_panics", "Pep508.C06.marker_tree_err_renderable", "Pep508.C06.marker_expression_err_renderable", "Pep508.C06.requirement_err_renderable", "Pep508.C06.display_underlines_within", "Pep508.C06.extras_never_panic", "Pep508.C06.name_never_panics"],
+                     "Pep508.C06.requirement_url_ends_span", "Pep508.C06.requirement_url_ends_ok_span", "Pep508.C19.unnamed_no_panic", "Pep508.C19.unnamed_err_boundary", "Pep508.C06.display_never_panics", "Pep508.C06.marker_tree_err_renderable", "Pep508.C06.marker_expression_err_renderable", "Pep508.C06.requirement_err_renderable", "Pep508.C06.display_underlines_within", "Pep508.C06.extras_never_panic", "Pep508.C06.name_never_panics"],
         "suites": [{"name": "mparse", "args": ["C06"]}, {"name": "req", "args": ["C06"]}],
         "rule": "marker texts: the full operand-kind x operator x operand-kind table, derivations x layouts, and hostile mutations (multi-byte characters at token boundaries, "
                 "U+3000/U+0085 whitespace, NUL, lone quotes, truncations) through MarkerTree::parse_reporter and MarkerExpression::parse_reporter; requirement texts: derivations "
@@ -274,8 +274,8 @@ PROPS = {
         "trusted": ["memory ordering of the lock-free arena reads and deadlock-freedom of std::sync::Mutex are outside any executable model"], "assumptions": [],
     },
     "C19": {
-        "lean_targets": ["Pep508.Theorems.C19"],
-        "theorems": ["Pep508.C19.archive_rule", "Pep508.C19.scheme_rule", "Pep508.C19.path_unsupported", "Pep508.C19.path_never_accepted",
+        "lean_targets": ["Pep508.Theorems.C19", "Pep508.Theorems.C19b"],
+        "theorems": ["Pep508.C19.unnamed_no_panic", "Pep508.C19.unnamed_err_boundary", "Pep508.C19.unnamed_call_span", "Pep508.C19.scan_is_rule", "Pep508.C19.parse_unnamed_url_is_rule", "Pep508.C19.rule_is_first_stop", "Pep508.C19.token_no_ws", "Pep508.C19.ws_in_brackets", "Pep508.C19.accepts", "Pep508.C19.accepts_marker", "Pep508.C19.roundtrip", "Pep508.C19.roundtrip_marker", "Pep508.C19.bracket_ambiguity", "Pep508.C19.old_requirement_end", "Pep508.C19.archive_rule", "Pep508.C19.scheme_rule", "Pep508.C19.path_unsupported", "Pep508.C19.path_never_accepted",
                      "Pep508.C19.scheme_url_unsupported", "Pep508.C19.scheme_url_never_accepted", "Pep508.C19.relpath_unsupported",
                      "Pep508.C19.relpath_never_accepted", "Pep508.C19.archive_name_unsupported", "Pep508.C19.archive_name_extras_unsupported",
                      "Pep508.C19.archive_name_never_accepted", "Pep508.C19.scheme_not_a_name", "Pep508.C19.span_conventions"],
@@ -344,7 +344,7 @@ MANIFEST_TEXT = {
     "C19": {
         "technique": "Lean 4 theorems: every path, scheme URL, relative path and archive file name (with extras / marker / leading whitespace, any environment) is rejected by the model requirement parser with the unsupported-requirement kind and never accepted; declarative specs of looks_like_archive and split_scheme; differential model on generated shapes; unnamed parser by oracle",
         "text": "path_unsupported, scheme_url_unsupported, relpath_unsupported, archive_name_unsupported(+extras) and *_never_accepted over all inputs of each shape; archive_rule / scheme_rule characterise the helper functions; every generated shape x suffix is compared between implementation and model and judged by the oracle.",
-        "note": _NOTE + "partial: the default-feature half (never a name; dedicated error kind; for paths, scheme URLs, relative paths and archive names, with extras / marker suffixes, leading whitespace, any environment) is proved; the unnamed parser of the non-pep508-extensions feature (acceptance, recovery of URL / extras / marker, round trip) is not modelled: oracle only, in the thorough tier built with that feature.",
+        "note": _NOTE + "both halves are theorems about the models: default feature — never a name, dedicated error kind (paths, scheme URLs, relative paths, archive names; extras / marker suffixes, leading whitespace, any environment); extension feature — the unnamed parser model never panics, errors on char boundaries, token scan = declarative rule with bracket depth, acceptance and recovery of verbatim text / extras / marker, round trip of the printed form, bracket ambiguity proved. The unnamed model is tied to the code only in the thorough tier (the default build does not compile src/unnamed.rs); building the URL value from the classified text is external.",
     },
     "C10": {
         "technique": "Lean 4 theorem: the diagram of `python_version OP V` evaluates as PEP 440 release comparison of X.Y (all operators, all literals outside the carve-out), "
@@ -357,8 +357,8 @@ MANIFEST_TEXT = {
         "technique": "Lean 4 theorems per expression form (PEP 440 / string order / substring / extra) + pointwise and/or (C02) + parser totality and dispatch inversion; "
                      "derivation x layout oracle with an independent AST evaluator for the text level",
         "text": "Each comparison form means what the PEPs say for all literals and environments; and/or skeletons are boolean (skeleton); the parser is total and inverts operands "
-                "correctly. The clause 'every layout of a derivation parses to the derivation's marker' is decided by the differential parser model + oracle, not by a Lean theorem.",
-        "note": _NOTE + "partial at the text level: layout-independence is correspondence + oracle; pep440 literal parsing is external.",
+                "correctly. Every whitespace layout of a marker text (and/or chains of any length, parentheses of any depth) parses to the combination of what its atoms parse to alone (layout_parses, layout_independent; keyword boundaries kwStop_iff with proved negative examples); atoms `key op 'v'` and `'v' op key` are proved to parse as dispatch says.",
+        "note": _NOTE + "partial: atoms with the word operators `in` / `not in` are hypotheses (AtomOK) of the layout theorem, not proved instances (the character classes of the external tokenizer are abstract); pep440 literal parsing is external.",
     },
     "C06": {
         "technique": "Lean 4 theorem: the marker parsers never reach a panic site for any Unicode input and any behaviour of the external parsers (cursor invariant, fuel bound), "
